@@ -739,6 +739,7 @@ class Run:
             raise Unsupported("append to a non-string")
         v = self.data[name]
         if len(v) >= o["cap"]:
+            self.tags.add("out-of-space")
             raise OutOfSpace()
         self.data[name] = v + bytes([b])
 
@@ -751,6 +752,10 @@ class Run:
             dr = RX.deriv(r, b)
             if dr != RX.EMPTY:
                 self.provisional = started and RX.nullable(r)
+                if self.provisional:
+                    # the match could have ended here: non-strict assignments / deletes that follow it have been performed by the compiled
+                    # machine already (known finding F-01f), although the match goes on
+                    self.tags.add("continued-after-provisional-end")
                 started = True
                 if into is not None and b != END:
                     # the byte is appended as part of its consumption (after the do-actions of enclosing foreach statements);
